@@ -27,6 +27,14 @@ theorem verify_joins_once : Facts.llo_VerifyChannelDefinitions_joins_in_loops = 
 /-- the same for `buildPayload` of the EVM ABI-unpacked codec (second instance of K6) -/
 theorem payload_joins_once : Facts.evm_buildPayload_joins_in_loops = [] := by decide
 
+/-- K8: in `outcome()` the call of the aggregator is preceded, in the stream loop, by the test for a stored
+    aggregate AND by the test-and-set of the `attempted` set — the `memo = true` loop of
+    `DSV.Cost.AggLoop`, so `agg_loop_cost_linear` is the applicable shape -/
+theorem aggregation_attempted_once : Facts.llo_outcome_aggregation_guards =
+    ["if outcome.StreamAggregates[sid][agg]; exists { continue }",
+     "if attempted[strm]; tried { continue }",
+     "attempted[strm] = struct{}{}"] := by decide
+
 /-- `decode_cost_linear` with the limit of the working tree: at most `11·|b| + 3` -/
 theorem decode_cost_linear_repo (typ : Nat) (b : Bytes) :
     (svDecode (some Facts.llo_maxTimestampedStreamValueNesting) typ b).cost ≤ 11 * b.length + 3 := by
